@@ -321,6 +321,7 @@ func (v *Verifier) VerifyFunc(key string, c *Contract, class map[string]string) 
 		}
 		se := &SpecEnv{e: e, st: st, old: e.entry, fr: e.rootFr, vars: vars, env: env, pkg: c.Pkg}
 		e.bindLets(c, se)
+		e.applyGhostSets(st, c, se)
 		e.assumeMapWF(st)
 		if c.PanicsIff != nil {
 			ose := &SpecEnv{e: e, st: e.entry, old: e.entry, fr: e.rootFr, vars: e.params, env: env, pkg: c.Pkg}
